@@ -34,6 +34,7 @@ def run(ctx, repo):
     ctx.rule('R2', 'gender -> normalize_gender and event -> upper() dominate every key use in the public grader methods')
     ctx.rule('R3', "find_age's clamping arm uses the last column index (len(ages) - 1)")
     ctx.rule('R4', 'grade roles: standard = best / factor; timed: standard / perf; field: perf / standard; timed kinds = {road, track}')
+    ctx.rule('R6', 'memo transparency on the grader objects (they are shared between all callers)')
     ctx.rule('R5', 'JSON tables: ages strictly increasing, row lengths, one contiguous block of finite positive factors, '
                    'standards > 0, upper-case codes, both genders')
     # ---- R1
@@ -119,6 +120,38 @@ def run(ctx, repo):
     elif not any(f.rule == 'R1' for f in ctx.findings):
         ctx.finding('R3', '%s::AgeGrader.find_age::clamp index' % AGE, AGE, fa.lineno,
                     'the arm for ages past the last column does not select index len(%s) - 1' % agesp)
+    # scan bounds: the column / row scans must be able to run off the end (that is what selects the clamping arm)
+    for q, seq_idx in (('AgeGrader.find_age', 2), ('AgeGrader.find_row_by_distance', 2)):
+        f = mod.func(q)
+        seqp = f.args.args[seq_idx].arg
+        lens2 = {ast.unparse(n.targets[0]): ast.unparse(n.value.args[0]) for n in ast.walk(f) if isinstance(n, ast.Assign) and isinstance(n.value, ast.Call)
+                 and call_name(n.value) == 'len' and len(n.targets) == 1 and n.value.args}
+        loops = [w for w in ast.walk(f) if isinstance(w, ast.While) and isinstance(w.test, ast.BoolOp)]
+        okb = False
+        bad = None
+        for w in loops:
+            for part in w.test.values:
+                if isinstance(part, ast.Compare) and len(part.ops) == 1 and isinstance(part.ops[0], ast.Lt):
+                    r = ast.unparse(part.comparators[0])
+                    if lens2.get(r) == seqp or r == 'len(%s)' % seqp:
+                        okb = True
+                    elif any(nm in r for nm in lens2) or 'len(' in r:
+                        bad = unparse(part)
+        if bad:
+            ctx.finding('R3', '%s::%s::scan bound' % (AGE, q), AGE, f.lineno,
+                        'the scan in %s stops at `%s` instead of the end of %s: a value beyond the last entry never reaches the clamping '
+                        'arm and is extrapolated from the last two entries (factors can become negative)' % (q.split('.')[1], bad, seqp), 'age 120')
+        elif okb:
+            ctx.ok('R3', '%s scans up to len(%s)' % (q, seqp))
+    # memo transparency on the graders (shared instances keep whatever is cached)
+    from ..memo import analyse as memo_analyse
+    for cname in ('AgeGrader', 'AthlonsAgeGrader'):
+        for f in mod.cls(cname).body:
+            if isinstance(f, ast.FunctionDef) and f.name not in ('__init__', 'get_data'):
+                res, memos = memo_analyse(f, set())
+                for rule, msg, node in res:
+                    ctx.finding('R6', '%s::%s.%s::memo %s' % (AGE, cname, f.name, rule), AGE, node.lineno, msg,
+                                'the same event graded for one gender, then for the other, on the shared grader')
     # ---- R4
     cg = mod.func('AgeGrader.calculate_age_grade')
     env = resolve_locals(cg)
